@@ -149,3 +149,41 @@ Definition check_c09 (fc : flavour * bcase) : N :=
   let p := all3 c09_ok (bc_ops c) impl (map strip_c (spec_results c)) in
   if all2 res_eqb impl (map strip_c (model_results c)) then (if p then 0 else 2)%N
   else (if p then 1 else 2)%N.
+
+(* ---------- C10 ---------- *)
+From Cache Require Import Jitter.
+
+Record c10case := C10Case {
+  c10_jn : Z; c10_jd : Z;                            (* ExpirationJitter as an exact rational *)
+  c10_writes : list (Z * Z * Z * Z * Z * bool);      (* t, ctx ttl, observed expiry, r num, r den, drew *)
+  c10_b : bcase;
+}.
+
+(* the property on one observed write *)
+Definition c10_write_ok (cfg : bcfg) (jn jd : Z) (w : Z * Z * Z * Z * Z * bool) : bool :=
+  let '(t, ctx, E, rn, rd, drew) := w in
+  let T := effective_ttl cfg ctx in
+  if (ctx =? 0) && (eff_ttl cfg =? unlimited) then E =? 0
+  else if negb (c_jitter cfg) then E =? t + T
+  else jit_okb jn jd T (E - t - T) && negb (E =? 0).
+
+(* the float formula, against the mirrored draw r:  | jit - T*J*(r - 1/2) | <= 1 + slack *)
+Definition c10_formula_ok (cfg : bcfg) (jn jd : Z) (w : Z * Z * Z * Z * Z * bool) : bool :=
+  let '(t, ctx, E, rn, rd, drew) := w in
+  let T := effective_ttl cfg ctx in
+  if negb drew then true
+  else let D := 2 * jd * rd in
+       let Num := T * jn * (2 * rn - rd) in
+       Z.abs ((E - t - T) * D - Num) <=? (1 + slack T) * D.
+
+(* reads: value up to and including the stored instant, ErrExpired carrying that instant after *)
+Definition c10_reads_ok (c : bcase) : bool :=
+  all2 res_eqb (map strip_c (bc_res c)) (map strip_c (spec_results c)).
+
+Definition check_c10 (c : c10case) : N :=
+  let b := c10_b c in
+  let cfg := bc_cfg b in
+  let p := forallb (c10_write_ok cfg (c10_jn c) (c10_jd c)) (c10_writes c) && c10_reads_ok b in
+  let m := all2 res_eqb (map strip_c (bc_res b)) (map strip_c (model_results b))
+           && forallb (c10_formula_ok cfg (c10_jn c) (c10_jd c)) (c10_writes c) in
+  if m then (if p then 0 else 2)%N else (if p then 1 else 2)%N.
